@@ -445,6 +445,12 @@ class OriginConn:
         wire = resp.serialise()
         o.record(req, resp)
         self.resp_pending = False
+        if getattr(resp, "raw", None) is not None:
+            # fuzzing: arbitrary bytes instead of a response, then the peer goes away
+            tr.send(resp.raw, resp.delay)
+            tr.server_close(0.5)
+            self.closing = True
+            return
         if resp.truncate is not None:
             tr.send(wire[:resp.truncate], resp.delay)
             tr.server_close()
@@ -614,6 +620,11 @@ class ProxyConn:
         rec["resp"] = resp
         p.net.log("proxy.connect", tr=tr.id, target=target, status=resp.status)
         self.resp_pending = False
+        if getattr(resp, "raw", None) is not None:
+            tr.send(resp.raw, resp.delay)
+            tr.server_close(0.5)
+            self.closing = True
+            return
         if resp.truncate is not None:
             tr.send(wire[:resp.truncate], resp.delay)
             tr.server_close()
